@@ -291,6 +291,7 @@ class Result(object):
         self.snaps = []         # (index into model_ops of the LAST op of the step, snapshot) to compare with the model
         self.model_valid = True # False once something outside the model happened (partial failure, extended slice, ...)
         self.partial = False
+        self.stopped = False    # ended early: an exception left different partial effects in Pony and in plain Python
         self.init_T = None
         self.executed = 0
 
@@ -371,7 +372,12 @@ def execute(env, attr, init, prog, created=False, source=None):
                     if rerr != merr: res.mirror_diffs.append({'at': idx, 'what': 'exception', 'real': rerr, 'mirror': merr})
                 if merr is not None and canon(y) != before_m:
                     res.partial = True; res.model_valid = False
-                check_mirror(idx)
+                if rerr is not None and rerr == merr and canon(rootval()) != canon(st['mirror']):
+                    # both raised, but the part of the change that happened before the exception differs (Pony converts the iterable
+                    # first, plain Python consumes it while changing the list): not the property; the program ends here
+                    res.stopped = True
+                else:
+                    check_mirror(idx)
                 if mm is None or (c['n'] == 'sort' and mm.get('perm') is None and rerr is None): res.model_valid = False
                 if res.model_valid:
                     if c['n'] == 'sort' and mm.get('perm') is None:
@@ -381,6 +387,7 @@ def execute(env, attr, init, prog, created=False, source=None):
                         res.snaps.append((len(res.model_ops) - 1, snap(rerr), idx))
                     elif isinstance(x, TrackedValue) and rerr is None:
                         res.model_ops.append({'t': 'touch'}); res.snaps.append((len(res.model_ops) - 1, snap(None), idx))
+                if res.stopped: break
                 continue
             if o == 'read':
                 e = st['e']; before = (e._status_, e._wbits_, len(env.updates()), canon(rootval()))
@@ -700,14 +707,14 @@ def classify_methods(base, sample, battery):
 
 def check_tables(ctx):
     facts = gen_tracked.introspect()
-    ctx.extra['tracked_table'] = {k: facts[k] for k in ('listOv', 'dictOv', 'arrOv', 'makeTuple', 'iterUnwrapped', 'notifyOnError', 'other')}
+    ctx.extra['tracked_table'] = {k: facts[k] for k in ('listOv', 'dictOv', 'arrOv', 'tupleMode', 'iterUnwrapped', 'notifyOnError', 'other')}
     if facts['errors']:
         ctx.divergence('probing the Tracked classes raised', facts['errors'])
     if not ctx.driver.ok:
         ctx.note('driver unavailable: table checks skipped'); return facts, None
     t = ctx.driver('C28', [{'op': 'tables'}])[0]
     # (1) the table compiled into the Lean build is the table of the classes as they are now
-    for k in ('listOv', 'dictOv', 'arrOv', 'listNotify', 'dictNotify', 'arrNotify', 'makeTuple', 'iterUnwrapped', 'notifyOnError'):
+    for k in ('listOv', 'dictOv', 'arrOv', 'listNotify', 'dictNotify', 'arrNotify', 'tupleMode', 'iterUnwrapped', 'notifyOnError'):
         ctx.case(['table', k], kind='table:fresh-vs-compiled')
         if facts[k] != t[k]:
             ctx.divergence('Gen/TrackedTable.lean (compiled) differs from the classes as they are now: %s' % k, k, model=t[k], impl=facts[k])
@@ -880,6 +887,7 @@ def run(ctx):
             elif o['op'] == 'read': ctx.count('read:' + o['r'])
             elif o['op'] != 'take': ctx.count('op:' + o['op'])
         if res.partial: ctx.count('program:partial-failure (outside the model)')
+        if res.stopped: ctx.count('program:stopped after an exception with a different partial effect than plain Python')
         if not res.model_valid: ctx.count('program:model comparison stopped early')
         report_result(ctx, env, attr, init, prog, res, facts)
         if res.model_ops: batch.append((attr, init, prog, res))
